@@ -122,6 +122,12 @@ func (g *Gen) drawBurst() []txgen.Tx {
 		ev, gov = k["allegation_vote"], k["proposal_vote"]
 	}
 	r := g.Uniform(20, "burst")
+	if k != nil && k["olvm"] >= 5 && r >= 17 {
+		return g.OlvmNativeInterleave()
+	}
+	if k == nil && r == 2 {
+		return g.OlvmNativeInterleave()
+	}
 	switch {
 	case ev >= 5 && r < 2:
 		return g.AllegationPair()
